@@ -164,6 +164,10 @@ func (w *World) errState(ret *ssa.Return) tri {
 	if idx < 0 || idx >= len(ret.Results) {
 		return triNA
 	}
+	if fn.Recover != nil && ret.Block() == fn.Recover {
+		// only reached after a recovered panic; never a normal (success) exit
+		return triNonNil
+	}
 	return w.valueErrState(retResult(ret, idx), ret.Block(), 0)
 }
 
@@ -537,4 +541,71 @@ func sortedKeys(m map[string]bool) []string {
 	}
 	sort.Strings(out)
 	return out
+}
+
+// ---- abstract path enumeration (decision tables)
+
+type pathEnd struct {
+	Events []string
+	Term   string // ok | err | panic | loop
+}
+
+// enumPaths walks the CFG of fn from its entry. eval decides branch conditions
+// under an abstract input (known=false explores both successors); event labels
+// the instructions of interest. The enumeration is bounded by max paths.
+func (w *World) enumPaths(fn *ssa.Function, eval func(cond ssa.Value) (val bool, known bool), event func(in ssa.Instruction) string, max int) ([]pathEnd, bool) {
+	var out []pathEnd
+	complete := true
+	var walk func(b *ssa.BasicBlock, ev []string, onPath map[*ssa.BasicBlock]int)
+	walk = func(b *ssa.BasicBlock, ev []string, onPath map[*ssa.BasicBlock]int) {
+		if len(out) >= max {
+			complete = false
+			return
+		}
+		if onPath[b] >= 2 {
+			out = append(out, pathEnd{append([]string(nil), ev...), "loop"})
+			return
+		}
+		onPath[b]++
+		defer func() { onPath[b]-- }()
+		for _, in := range b.Instrs {
+			if e := event(in); e != "" {
+				ev = append(ev, e)
+			}
+			switch t := in.(type) {
+			case *ssa.Return:
+				term := "ok"
+				if st := w.errState(t); st == triNonNil {
+					term = "err"
+				} else if st == triUnknown {
+					term = "unknown"
+				}
+				out = append(out, pathEnd{append([]string(nil), ev...), term})
+				return
+			case *ssa.Panic:
+				out = append(out, pathEnd{append([]string(nil), ev...), "panic"})
+				return
+			case *ssa.If:
+				v, known := eval(t.Cond)
+				if known {
+					if v {
+						walk(b.Succs[0], ev, onPath)
+					} else {
+						walk(b.Succs[1], ev, onPath)
+					}
+				} else {
+					walk(b.Succs[0], append([]string(nil), ev...), onPath)
+					walk(b.Succs[1], append([]string(nil), ev...), onPath)
+				}
+				return
+			case *ssa.Jump:
+				walk(b.Succs[0], ev, onPath)
+				return
+			}
+		}
+	}
+	if len(fn.Blocks) > 0 {
+		walk(fn.Blocks[0], nil, map[*ssa.BasicBlock]int{})
+	}
+	return out, complete
 }
